@@ -36,6 +36,8 @@ FD_FLOOR = 5e-5                     # relative floor of the central-difference c
 FD_NOISE = 8.0                      # + FD_NOISE * (solver tolerance 1e-12 x pore volume) / |difference|: the profiles are converged to an ABSOLUTE density
                                     # residual, so a dilute component carries a relative noise (measured: 2e-11 particles on differences of 2e-7)
 FD_STEP_FACTOR = 1.0                # + |E1 - E2|: disagreement of the two Richardson estimates (steps 2h,h and h,h/2) = measured error of the comparison
+FD_ROUGH = 2.0                      # + FD_ROUGH * roughness: for smooth N(rho_b) the second difference obeys c(h/2) = c(h)/4; the violation of that by the 7 re-solved
+                                    # points (-2h..2h), relative to the difference N(+h) - N(-h), measures how far the re-solved data are from ONE smooth branch
 FD_INCONCLUSIVE = 1e-3              # two estimates further apart than this: the re-solved profiles do not resolve the derivative at this state (convergence
                                     # noise amplified by a soft mode of the linearised operator, or steps outside the asymptotic range) -> counted as inconclusive
 BRANCH = 0.05                       # |N(+h) + N(-h) - 2 N(0)| / |N(+h) - N(-h)| above this: neighbouring solutions are not on one smooth
@@ -58,6 +60,12 @@ def num(x):
 
 def failed_tags(out):
     return sorted(set(int(t) for t in re.findall(r"C19FAIL (\d+)", out)))
+
+
+def roughness(curvs, diff):
+    """curvs: |f(+s) + f(-s) - 2 f(0)| for s = 2h, h, h/2; diff: |f(+h) - f(-h)| -> relative non-smoothness of the re-solved data"""
+    c0, c1, c2 = curvs
+    return max(abs(c2 - c1 / 4.0), abs(c1 - c0 / 4.0)) / max(abs(diff), 1e-300)
 
 
 def pore_key(c):
@@ -229,10 +237,12 @@ def run(ctx):
                 # Gibbs adsorption: Omega(+h) - Omega(-h) = - sum_i N_i dmu_i + O(h^3)
                 ratios = [(d["h"], num(d["d_omega"]) / num(d["minus_N_dmu"])) for d in dd]
                 ext, step = richardson(ratios)
-                tol = FD_FLOOR + FD_STEP_FACTOR * step + FD_NOISE * num(f["noise_N"]) * lin["T"] / abs(num(dd[1]["d_omega"]))
+                rough = roughness([num(d["omega_curvature"]) for d in dd], num(dd[1]["d_omega"]))
+                tol = FD_FLOOR + FD_STEP_FACTOR * step + FD_ROUGH * rough + FD_NOISE * num(f["noise_N"]) * lin["T"] / abs(num(dd[1]["d_omega"]))
                 fd_cmp += 1
+                step = max(step, rough)
                 if step > FD_INCONCLUSIVE:
-                    inconclusive.append({"what": "grand potential vs -N dmu", "input": key, "estimates_disagree_by": step, "ratios": ratios})
+                    inconclusive.append({"what": "grand potential vs -N dmu", "input": key, "estimates_disagree_by": step, "roughness_of_resolved_data": rough, "ratios": ratios})
                 else:
                     note_worst("gibbs_adsorption_rel", abs(ext - 1.0))
                 if step <= FD_INCONCLUSIVE and not abs(ext - 1.0) <= tol:
@@ -244,10 +254,13 @@ def run(ctx):
                     for what, pred in (("dn_dmu", "dn_dmu_times_dmu"), ("dn_dp", "dn_dp_times_dp")):
                         ratios = [(d["h"], num(d["dN"][i]) / num(d[pred][i])) for d in dd]
                         ext, step = richardson(ratios)
-                        tol = FD_FLOOR + FD_STEP_FACTOR * step + FD_NOISE * num(f["noise_N"]) / abs(num(dd[1]["dN"][i]))
+                        rough = roughness([num(d["curvature"][i]) for d in dd], num(dd[1]["dN"][i]))
+                        tol = FD_FLOOR + FD_STEP_FACTOR * step + FD_ROUGH * rough + FD_NOISE * num(f["noise_N"]) / abs(num(dd[1]["dN"][i]))
                         fd_cmp += 1
+                        step = max(step, rough)
                         if step > FD_INCONCLUSIVE:
-                            inconclusive.append({"what": what + " vs re-solved profiles", "component": i, "input": key, "estimates_disagree_by": step, "ratios": ratios})
+                            inconclusive.append({"what": what + " vs re-solved profiles", "component": i, "input": key, "estimates_disagree_by": step,
+                                                 "roughness_of_resolved_data": rough, "ratios": ratios})
                         else:
                             note_worst(what + "_fd_rel", abs(ext - 1.0))
                         if step <= FD_INCONCLUSIVE and not abs(ext - 1.0) <= tol:
@@ -267,10 +280,14 @@ def run(ctx):
                 for i in range(ncomp):
                     ratios = [(d["h"], num(d["dN_dT_fd"][i]) / num(d["dn_dt"][i])) for d in tt]
                     ext, step = richardson(ratios)
-                    tol = FD_FLOOR + FD_STEP_FACTOR * step + FD_NOISE * num(f["noise_N"]) / (2.0 * tt[1]["dT"]) / abs(num(tt[1]["dN_dT_fd"][i]))
+                    # (the harness stores |N+ + N- - 2 N0| / (2 dT) and (N+ - N-) / (2 dT))
+                    rough = roughness([num(d["curvature"][i]) * 2.0 * d["dT"] for d in tt], num(tt[1]["dN_dT_fd"][i]) * 2.0 * tt[1]["dT"])
+                    tol = FD_FLOOR + FD_STEP_FACTOR * step + FD_ROUGH * rough + FD_NOISE * num(f["noise_N"]) / (2.0 * tt[1]["dT"]) / abs(num(tt[1]["dN_dT_fd"][i]))
                     fd_cmp += 1
+                    step = max(step, rough)
                     if step > FD_INCONCLUSIVE:
-                        inconclusive.append({"what": "dn_dt vs re-solved profiles", "component": i, "input": key, "estimates_disagree_by": step, "ratios": ratios})
+                        inconclusive.append({"what": "dn_dt vs re-solved profiles", "component": i, "input": key, "estimates_disagree_by": step,
+                                             "roughness_of_resolved_data": rough, "ratios": ratios})
                     else:
                         note_worst("dn_dt_fd_rel", abs(ext - 1.0))
                     if step <= FD_INCONCLUSIVE and not abs(ext - 1.0) <= tol:
@@ -528,8 +545,9 @@ def run(ctx):
                        "linear_system": "|A x - rhs| <= %g + %g max|rhs|" % (LIN_ABS, LIN_REL), "dn_goal_rel": 1e-11, "enthalpy_lu_rel": LU_RTOL,
                        "segment_integrals_rel": SEG_RTOL, "stored_vs_recomputed_rel": CACHE_RTOL, "gibbs_between_states_of_one_object_rel": SEQ_GIBBS_RTOL,
                        "phase_equilibrium_omega_rel": EQUIL_RTOL,
-                       "central_differences": "steps 2h, h, h/2 (h = 1e-2 relative); two Richardson estimates E1 (2h,h), E2 (h,h/2): |E1 - 1| <= %g + |E1 - E2| + %g * 1e-12 * volume / |difference|; "
-                                              "inconclusive (counted, listed) when |E1 - E2| > %g; skipped (listed) when |N+ + N- - 2N0| > %g |N+ - N-| at the smallest step" % (FD_FLOOR, FD_NOISE, FD_INCONCLUSIVE, BRANCH),
+                       "central_differences": "steps 2h, h, h/2 (h = 1e-2 relative); two Richardson estimates E1 (2h,h), E2 (h,h/2): |E1 - 1| <= %g + |E1 - E2| + 2 roughness + %g * 1e-12 * volume / |difference| "
+                                              "(roughness = violation of c(h/2) = c(h)/4 by the second differences of the 7 re-solved points, relative to the first difference); "
+                                              "inconclusive (counted, listed) when |E1 - E2| or the roughness > %g; skipped (listed) when |N+ + N- - 2N0| > %g |N+ - N-| at the smallest step" % (FD_FLOOR, FD_NOISE, FD_INCONCLUSIVE, BRANCH),
                        "henry_limit_rel": HENRY_LIMIT_RTOL, "enthalpy_limit_rel": QST_LIMIT_RTOL,
                        "surface_tension_vs_box_rel": GAMMA_BOX_RTOL, "surface_tension_vs_grid_rel": GAMMA_GRID_RTOL,
                        "gamma(0.95Tc)/gamma(0.5Tc)": GAMMA_CRIT_RATIO, "pdgt_vs_dft_rel": PDGT_RTOL},
